@@ -33,6 +33,11 @@ Extensions beyond the basic space (all within the statement's "every input seque
     AND of the same type): split / strip / unique / bucketize / partition hand back the input's elements, not
     stand-ins that merely compare equal (1 for 1.0, the strip value for an element that is == to it);
   * a strip value that is == to a whole class of elements (the analogue of whitespace for str.strip()).
+  * a strip value that is itself a container (tuple, list, frozenset, range, dict, bytearray ...): still ONE value;
+  * items that compare (and hash) equal although their keys differ (1 / True / 1.0 keyed by type, records whose == ignores
+    the key attribute): unique / redundant / bucketize are about keys;
+  * bulk inputs (hundreds to ~130 000 elements, lengths and sizes around powers of two and around every integer constant
+    of the module under test) for every helper - a finite directed grid, NOT an exhaustive space.
 
 Only parameters the statement calls valid are explored (size >= 1, count >= 1, 0 <= overlap < chunk_size,
 maxsplit None or >= 0, bool-valued keys for partition ...).
@@ -224,6 +229,8 @@ def pos_elems(form, sepval='s', kind=None):
         return (EQUAL_SEP, ('a', 1), 'bee')
     if kind == 'falsy':            # a separator that is falsy, occurring as 0 and as 0.0
         return (0, ('a', 1), 'bee')
+    if kind in CONTAINER_KINDS:    # rows, coordinates, sets: the strip value is itself a container, yet ONE value
+        return CONTAINER_KINDS[kind]
     if kind in TOKEN_KINDS:        # tokens of a lexer / lines of a protocol: the separator is itself a str / bytes object
         return TOKEN_KINDS[kind]
     return (sepval, 'a', 'b')
@@ -239,6 +246,18 @@ TOKEN_KINDS = {
     'emptybytes': (b'', b'a', b'bb'),
     'emptystr':   ('', 'a', 'bb'),
     'mixedtok':   (b'--', '--', b'-'),     # the str that spells the same and a byte of the separator are not separators
+}
+# elements that are themselves containers; the first is the strip value.  "Stripped items will match the value of
+# the argument strip_value": one value compared with ==, never a collection of values (that is split's sep)
+CONTAINER_KINDS = {
+    'tupleval':   ((0, 0), (1, 1), 'b'),
+    'nestedval':  ((0, (0,)), 0, (0,)),        # the members of the strip value occur as elements: they stay
+    'emptytuple': ((), (0,), 0),
+    'listval':    ([0], [1], 0),
+    'fsetval':    (frozenset({0}), frozenset({1}), 0),
+    'rangeval':   (range(2), range(3), 1),
+    'dictval':    ({'k': 0}, {'k': 1}, 'k'),
+    'bytearrval': (bytearray(b'ab'), bytearray(b'a'), 97),
 }
 
 
@@ -545,6 +564,28 @@ class Obj:
         return hash(self.name)
 
 
+class Ver:
+    """A record whose == and hash cover only part of its state (the number): two records may be equal and still have
+    different values of the attribute that serves as the key."""
+
+    def __init__(self, num, stage):
+        self.num, self.stage = num, stage
+
+    def __eq__(self, other):
+        return isinstance(other, Ver) and self.num == other.num
+
+    def __hash__(self):
+        return hash(self.num)
+
+    def __repr__(self):
+        return 'Ver(%d,%s)' % (self.num, self.stage)
+
+
+# universes whose items may compare equal (and hash equal) although their keys differ: "the first occurrence of each
+# KEY" / "in exactly one bucket" are about keys, whatever == says about the items
+EQ_UNIVERSES = ('eqmix', 'eqvers')
+
+
 def universe(name, form):
     """-> (items, keys) : the item objects and the key value of each."""
     if name == 'plain':
@@ -574,6 +615,11 @@ def universe(name, form):
         return (3, 5, fractions.Fraction(1, 2), 'x', 'y'), (1, 1, 2, 'x', 'y')
     if name == 'fresh':     # every occurrence in the source is a new object equal to one of these (see fresh())
         return (EQUAL_SEP, ('p', 7), 'long-string'), (EQUAL_SEP, ('p', 7), 'long-string')
+    if name == 'eqmix':     # 1 == True == 1.0 (one hash), keyed by type / by repr
+        return (1, True, 1.0, 0), (int, bool, float, int)
+    if name == 'eqvers':
+        st = ('rc', 'final', 'rc', 'final')
+        return tuple(Ver(1 + i // 2, s) for i, s in enumerate(st)), st
     if name == 'flags':
         fl = (True, True, False, False, True)
         return tuple(Obj(None, f, 'o%d' % i) for i, f in enumerate(fl)), fl
@@ -594,9 +640,13 @@ def key_arg(uni, kind, seq, keys):
             return lambda x: isinstance(x, str)
         if uni == 'words':
             return len
+        if uni == 'eqmix':
+            return type
+        if uni == 'eqvers':
+            return lambda x: x.stage
         return lambda x: x
     if kind == 'attr':
-        return 'k' if uni == 'objs' else 'flag'
+        return {'objs': 'k', 'eqvers': 'stage'}.get(uni, 'flag')
     if kind == 'attr-or-self':     # the name of an attribute that not every element has
         return {'partial': 'k', 'fracs': 'denominator'}[uni]
     if kind == 'list':
@@ -795,7 +845,178 @@ def judge_ranges(c, res, cap, sfx):
     return out
 
 
-EV = {'chunked': ev_chunked, 'windowed': ev_windowed, 'pairwise': ev_windowed, 'split': ev_split, 'split2': ev_split2,
+# ======================================================================================================
+# bulk inputs: lengths around typical block / buffer thresholds (a directed grid, NOT an exhaustive space)
+
+def module_thresholds():
+    """Integer constants of the module under test (block sizes, buffer sizes ...), found by introspection."""
+    from boltons import iterutils
+    return sorted({v for v in vars(iterutils).values() if type(v) is int and 2 <= v <= 1 << 17})
+
+
+def bulk_lengths(tier, big=False):
+    ks = (8, 10, 12, 13) if tier == 'quick' else (8, 9, 10, 11, 12, 13, 14, 15)
+    base = {2 ** k for k in ks} | set(module_thresholds())
+    if big:
+        base = {2 ** 16} if tier == 'quick' else {2 ** 16, 2 ** 17}
+    return sorted({b + d for b in base for d in (-1, 0, 1)} | {2 * b + 1 for b in base} | ({100003} if big else {10000}))
+
+
+def bulk_sizes(tier):
+    base = {256, 4096} | set(module_thresholds())
+    return sorted({1, 2, 3, 7, 10, 100, 1000} | {b + d for b in base for d in (-1, 0, 1)})
+
+
+def bulk_src(n, form, sep_every=0, lead=0, trail=0, sepval=None):
+    """Element i of the bulk source is i (a character / byte derived from i for str / bytes); every sep_every-th one and
+    the first `lead` / last `trail` ones are the separator."""
+    if form == 'str':
+        return ''.join(chr(0x100 + i % 1021) for i in range(n))
+    if form == 'bytes':
+        return bytes(i % 251 for i in range(n))
+    xs = [sepval if (i < lead or i >= n - trail or (sep_every and i % sep_every == 0)) else i for i in range(n)]
+    return xs
+
+
+def bulk_present(xs, form):
+    return {'gen': lambda: (x for x in xs), 'iter': lambda: iter(xs), 'tuple': lambda: tuple(xs),
+            'deque': lambda: collections.deque(xs)}.get(form, lambda: xs)()
+
+
+def first_diff(got, want):
+    if not isinstance(got, list):
+        return show(got)
+    for i, (g, w) in enumerate(zip(got, want)):
+        if g != w:
+            return {'first difference at item': i, 'expected item': show(w), 'observed item': show(g),
+                    'items expected': len(want), 'items observed': len(got)}
+    return {'items expected': len(want), 'items observed': len(got), 'common prefix': min(len(got), len(want))}
+
+
+def ev_bulk(c):
+    fn, n, form = c['fn'], c['n'], c['form']
+    I = iu()
+    cap = 2 * n + 100
+    norm = lambda r: r            # noqa
+    it_name = fn + '_iter'
+    if fn == 'chunked':
+        size, fill = c['size'], c['fill']
+        xs = bulk_src(n, form)
+        kw = {} if fill == 'unset' else {'fill': fill_value(fill, form)}
+        tail = xs[n - n % size:] if n % size else None
+        want = [xs[i:i + size] for i in range(0, n - n % size, size)]
+        if tail is not None:
+            pad = (size - len(tail)) if kw else 0
+            want.append(tail + ('z' * pad if form == 'str' else bytes([122]) * pad if form == 'bytes' else [kw.get('fill')] * pad))
+        if form not in ('str', 'bytes'):
+            norm = lambda r: [list(ch) if isinstance(ch, (list, tuple)) else ch for ch in r] if isinstance(r, list) else r   # noqa
+        mk = lambda f: f(bulk_present(xs, form), size, **kw)      # noqa
+        what = 'chunks(bulk%s)' % (',fill' if kw else '')
+    elif fn in ('windowed', 'pairwise'):
+        size, fill = (2 if fn == 'pairwise' else c['size']), c['fill']
+        xs = bulk_src(n, form)
+        if fill == 'unset':
+            want, kw = [tuple(xs[i:i + size]) for i in range(n - size + 1)], {}
+        else:
+            want = [tuple(xs[i:i + size]) + (None,) * (i + size - n) for i in range(n)]
+            kw = {'end' if fn == 'pairwise' else 'fill': None}
+        norm = lambda r: [tuple(w) if isinstance(w, (list, tuple)) else w for w in r] if isinstance(r, list) else r   # noqa
+        mk = (lambda f: f(bulk_present(xs, form), **kw)) if fn == 'pairwise' else (lambda f: f(bulk_present(xs, form), size, **kw))  # noqa
+        what = 'windows(bulk%s)' % (',fill' if kw else '')
+    elif fn == 'split':
+        sepval = None if c['sep'] == 'None' else 'S'
+        xs = bulk_src(n, form, sep_every=c['every'], lead=2, trail=2, sepval=sepval)
+        want, cur = [], []
+        for x in xs + [sepval]:
+            if x is sepval:
+                if cur or sepval is not None:     # sep=None groups runs of separators (str.split()), a given one does not
+                    want.append(cur)
+                cur = []
+            else:
+                cur.append(x)
+        kw = {} if c['sep'] == 'None' else {'sep': sepval}
+        norm = lambda r: [list(g) if isinstance(g, (list, tuple)) else g for g in r] if isinstance(r, list) else r   # noqa
+        mk = lambda f: f(bulk_present(xs, form), **kw)      # noqa
+        what = 'result(bulk,sep=%s)' % ('None' if sepval is None else 'given')
+    elif fn in ('strip', 'lstrip', 'rstrip'):
+        lead, trail = c['lead'], c['trail']
+        xs = bulk_src(n, form, sep_every=c['every'], lead=lead, trail=trail)
+        lo = next((i for i, x in enumerate(xs) if x is not None), n) if fn != 'rstrip' else 0
+        hi = next((i + 1 for i in range(n - 1, -1, -1) if xs[i] is not None), 0) if fn != 'lstrip' else n
+        want = xs[lo:max(lo, hi)]
+        mk = lambda f: f(bulk_present(xs, form))      # noqa
+        what = 'result(bulk)'
+    else:      # unique / redundant / bucketize / partition over n items with d distinct keys
+        d = c['keys']
+        xs = bulk_src(n, form)
+        key = (lambda x: x % d)
+        it_name = 'unique_iter' if fn == 'unique' else None
+        if fn == 'unique':
+            want = xs[:min(n, d)]
+        elif fn == 'redundant':
+            want = sorted(k for k in range(min(n, d)) if k + d < n)
+            norm = lambda r: sorted(key(x) for x in r) if isinstance(r, list) and all(isinstance(x, int) for x in r) else r   # noqa
+        elif fn == 'bucketize':
+            want = {k: xs[k::d] for k in range(min(n, d))}
+            norm = lambda r: ({k: list(v) if isinstance(v, (list, tuple)) else v for k, v in r.items()}   # noqa
+                              if isinstance(r, dict) else r)
+        else:
+            key = (lambda x: x % d == 0)
+            want = [xs[0::d], [x for x in xs if x % d]]
+            norm = lambda r: [list(v) if isinstance(v, (list, tuple)) else v for v in r] if isinstance(r, tuple) else r   # noqa
+        mk = lambda f: f(bulk_present(xs, form), key=key)      # noqa
+        what = 'result(bulk)'
+    lst = norm(call(lambda: mk(getattr(I, fn))))
+    if lst != want:
+        return [('C09|fn:%s|%s' % (fn, what), {'items expected': len(want)}, first_diff(lst, want) if isinstance(want, list) else
+                 ('buckets differ', len(lst) if isinstance(lst, dict) else show(lst)))]
+    if it_name:
+        it = call(lambda: list(itertools.islice(mk(getattr(I, it_name)), cap)))
+        if isinstance(it, list) and len(it) >= cap:
+            return [('C09|fn:%s|terminates' % it_name, '%d items' % len(want), 'more than %d' % cap)]
+        if norm(it) != want:
+            return [('C09|fn:%s|same-items-as-list-form(bulk)' % it_name, {'items expected': len(want)}, first_diff(norm(it), want))]
+    return []
+
+
+def gen_bulk(B, arg):
+    fn = arg[0]
+    tier = B['tier']
+    if fn == 'chunked':
+        _, form, fill, big = arg
+        for n in bulk_lengths(tier, big):
+            for size in ((3, 1000) if big else bulk_sizes(tier)):
+                yield {'fn': fn, 'ev': 'bulk', 'n': n, 'form': form, 'size': size, 'fill': fill}, n > size
+        return
+    _, form = arg
+    for n in bulk_lengths(tier):
+        if fn in ('windowed', 'pairwise'):
+            for size in ((2,) if fn == 'pairwise' else (2, 3, 257)):
+                for fill in ('unset', 'none'):
+                    yield {'fn': fn, 'ev': 'bulk', 'n': n, 'form': form, 'size': size, 'fill': fill}, n > size
+        elif fn == 'split':
+            for sep in ('None', 'value'):
+                for every in (0, 2, 7, 1000):
+                    yield {'fn': fn, 'ev': 'bulk', 'n': n, 'form': form, 'sep': sep, 'every': every}, True
+        elif fn in ('strip', 'lstrip', 'rstrip'):
+            for lead, trail in ((0, 0), (1, 1), (n // 3, n // 3), (n // 3, 0), (0, n // 3), (n, 0)):
+                yield {'fn': fn, 'ev': 'bulk', 'n': n, 'form': form, 'every': 5, 'lead': lead, 'trail': trail}, True
+        else:
+            for d in (3, n // 2 + 1, n):
+                yield {'fn': fn, 'ev': 'bulk', 'n': n, 'form': form, 'keys': d}, d < n
+
+
+def bulk_shards(B):
+    out = [('chunked', f, fill, False) for f in ('list', 'gen', 'str', 'bytes') for fill in ('unset', 'z')]
+    out += [('chunked', f, fill, True) for f in ('list', 'gen') for fill in ('unset', 'z')]
+    out += [(fn, f) for fn in ('windowed', 'pairwise', 'split', 'strip', 'lstrip', 'rstrip', 'unique', 'redundant',
+                               'bucketize', 'partition') for f in ('list', 'gen')]
+    return out
+
+
+BULK_PART = 'bulk inputs (directed grid)'
+
+EV = {'bulk': ev_bulk, 'chunked': ev_chunked, 'windowed': ev_windowed, 'pairwise': ev_windowed, 'split': ev_split, 'split2': ev_split2,
       'strip': ev_strip, 'lstrip': ev_strip, 'rstrip': ev_strip, 'unique': ev_keyed, 'redundant': ev_keyed,
       'bucketize': ev_keyed, 'partition': ev_keyed, 'chunk_ranges': ev_ranges}
 
@@ -911,7 +1132,7 @@ def gen_split2(B, vf):
 def gen_strip(B, arg):
     form, fn = arg[:2]
     extra = {'elems': arg[2]} if len(arg) > 2 else {}
-    variants = ('value',) if (form in ('str', 'bytes') or extra.get('elems') in COPY_KINDS + ('eqclass',) + tuple(TOKEN_KINDS)) \
+    variants = ('value',) if (form in ('str', 'bytes') or extra.get('elems') in COPY_KINDS + ('eqclass',) + tuple(TOKEN_KINDS) + tuple(CONTAINER_KINDS)) \
         else ('default', 'None', 'value')
     for seq in seqs(3, B['Ls'] - SHORTER if (extra or form in SHORT_FORMS) else B['Ls']):
         nt = 0 in seq and len(set(seq)) > 1
@@ -945,6 +1166,10 @@ KEYED = (
 # ones only where the items are hashable)
 KEYED = [(f, u, k, forms + ((SHORT_FORMS + (CONT_DISTINCT if u != 'lists' else ())) if k != 'list' else ()))
          for f, u, k, forms in KEYED]
+# items that are == without having the same key (no set / dict presentations: those would merge them)
+KEYED += ([(f, 'eqmix', 'fn', FORMS3) for f in ('unique', 'redundant', 'bucketize')]
+          + [(f, 'eqvers', k, FORMS3 if k == 'attr' else ('list', 'gen')) for f in ('unique', 'redundant', 'bucketize')
+             for k in ('attr', 'fn')])
 
 
 def gen_keyed(B, spec):
@@ -1012,13 +1237,14 @@ PARTS = {
                                                       ('callable2', 'tuple'),
                                                       ('iter2', 'list'), ('map2', 'gen'), ('legacy2', 'list')]),
     'strip+lstrip+rstrip': (gen_strip, lambda B: [(f, fn) for fn in ('strip', 'lstrip', 'rstrip') for f in FORMS5 + SHORT_FORMS]
-                            + [(f, fn, k) for k in ('unhashable',) + COPY_KINDS + tuple(TOKEN_KINDS)
+                            + [(f, fn, k) for k in ('unhashable',) + COPY_KINDS + tuple(TOKEN_KINDS) + tuple(CONTAINER_KINDS)
                                for fn in ('strip', 'lstrip', 'rstrip') for f in ('list', 'gen')]
                             + [(f, fn, 'eqclass') for fn in ('strip', 'lstrip', 'rstrip') for f in ('str', 'list', 'gen')]),
     'unique+redundant+bucketize+partition': (gen_keyed, lambda B: KEYED),
     'chunk_ranges': (gen_ranges, lambda B: [(al, n) for n in range(1, B['ranges']['chunk_size'] + 1)
                                             for al in (False, True)]),
     HUGE_PART: (gen_ranges_huge, lambda B: [(al, n) for n in B['huge_sizes'] for al in (False, True)]),
+    BULK_PART: (gen_bulk, bulk_shards),
 }
 
 RULES = {
@@ -1030,14 +1256,15 @@ RULES = {
     'unique+redundant+bucketize+partition': 'some key occurs at least twice in the input',
     'chunk_ranges': 'input_size > chunk_size (more than one range is needed)',
     HUGE_PART: 'input_size > chunk_size (more than one range is needed)',
+    BULK_PART: 'more elements than size / more elements than keys / (split, strip) always',
 }
 
 
 def run(ctx):
-    B = bounds(ctx.tier)
+    B = dict(bounds(ctx.tier), tier=ctx.tier)
 
     for part, (gen, shard_args) in PARTS.items():
-        has_seq = not part.startswith('chunk_ranges')
+        has_seq = not (part.startswith('chunk_ranges') or part == BULK_PART)
 
         def shard(arg, gen=gen, has_seq=has_seq):
             _arm()
@@ -1082,6 +1309,16 @@ def run(ctx):
                 '(step = chunk_size - overlap_size); input_offset in {0, 1, step-1, step, 3*step+5, 2**53+1, '
                 '2*chunk_size+1}; align False/True; coverage decided by an interval sweep'
                 % ([str(v) for v in B['huge_sizes']], B['huge_chunks'])}
+    cov['exhaustive_means'] += '; the part "%s" likewise is a finite directed grid (every grid point executed)' % BULK_PART
+    cov['directed_supplement_bulk'] = {
+        'part': BULK_PART, 'exhaustive': False,
+        'what': 'sources of n consecutive integers (str / bytes: characters derived from them), n in %s (powers of two and '
+                'every integer constant of boltons.iterutils -1/+0/+1 and doubled+1); chunked/chunked_iter with size in %s, '
+                'fill unset / given, list, generator, str, bytes (n in %s: sizes 3 and 1000, list and generator); windowed '
+                '(size 2, 3, 257) / pairwise without and with fill; split (sep omitted / a value, a separator every 2nd, 7th, '
+                '1000th element or only at the ends); strip, lstrip, rstrip (runs of 0, 1, n//3, n strip values at the '
+                'ends); unique, redundant, bucketize, partition with 3, n//2+1, n distinct keys; list and generator'
+                % (bulk_lengths(ctx.tier), bulk_sizes(ctx.tier), bulk_lengths(ctx.tier, True))}
     cov['bounds'] = {
         'chunked, windowed, pairwise, unique/redundant/bucketize with key None/identity':
             'every sequence of length 0..%d over 3 symbols {SEP, a, b}' % B['L'],
@@ -1112,6 +1349,12 @@ def run(ctx):
         'strip value equal to a class of elements': 'strip, lstrip, rstrip over {" ", "\\t", "a"} (str, list, generator), '
                                                     'strip value == " " and == "\\t", oracle str.strip() without argument, '
                                                     'length 0..%d' % (B['Ls'] - SHORTER),
+        'strip value that is itself a container': 'strip, lstrip, rstrip over %s (the first of each is the strip value), '
+                                                  'list and generator, length 0..%d'
+                                                  % ('; '.join(repr(list(v)) for v in CONTAINER_KINDS.values()), B['Ls'] - SHORTER),
+        'items that are == but have different keys': 'unique, redundant, bucketize over {1, True, 1.0, 0} with key=type and over '
+                                                     'records whose == / hash ignore the key attribute (key = attribute name / '
+                                                     'callable), list, tuple, generator, length 0..%d' % B['Lkey'],
         'maxsplit': list(B['maxsplits']),
         'two-separator split': 'every sequence of length 0..%d over 4 symbols {S, T, a, b}' % B['L2'],
         'keyed helpers': 'every sequence of length 0..%d over 5 items with keys A,A,B,B,C (tuples, unhashable lists, objects; '
